@@ -1,7 +1,10 @@
 #!/bin/bash
-# run every stored seeded change against the check of its property (and record the outcome)
+# run every stored seeded change (both rounds) against the quick check of its property and record the outcome
+# usage: seed_all.sh [dir names under seeded/ ...]   (default: all)
 cd /verif
-for id in ${@:-C02 C03 C05 C08 C09 C10 C11 C12 C13 C14 C15 C16 C17 C18 C19 C06}; do
-  tools/seed_run.sh $id > /verif/.work/t/seedrun_$id.txt 2>&1
-  cat /verif/.work/t/seedrun_$id.txt | head -5
+OUT=/verif/.work/t/seed_regress.out; : > $OUT
+for d in ${@:-$(ls seeded | grep -E '^C[0-9]+(-r2)?$')}; do
+  id=${d%%-*}
+  tools/seed_run.sh $d $id > /verif/.work/t/seedrun_$d.txt 2>&1
+  head -4 /verif/.work/t/seedrun_$d.txt | cut -c1-300 | tee -a $OUT
 done
